@@ -50,6 +50,7 @@ def main(argv=None):
     ap.add_argument('--jobs', type=int, default=int(os.environ.get('VERIF_JOBS', '0')) or None)
     ap.add_argument('--n', type=int, help='override the number of cases')
     ap.add_argument('--no-evidence', action='store_true')
+    ap.add_argument('--hist', action='store_true', help='print a histogram of violations (development aid)')
     args = ap.parse_args(argv)
     cid = args.check.upper()
     tier = args.tier if args.tier in ('quick', 'thorough') else 'quick'
@@ -100,6 +101,8 @@ def main(argv=None):
             infra.append('worker %d died without results (rc=%s): %s' % (w, p.returncode, err))
 
     agg = fold(results)
+    if args.hist:
+        hist(agg)
     wall = time.time() - t0
     known = read_known()
     verdict, lines = judge(cid, mod, agg, infra, known, plan)
@@ -120,6 +123,21 @@ def main(argv=None):
         cid, verdict.upper(), tier, seed, agg['evaluations'], len(agg['nontrivial_sigs']),
         sum(agg['oracle_evals'].values()), wall))
     return {'held': 0, 'violated': 1, 'inconclusive': 2}[verdict]
+
+
+def hist(agg):
+    from collections import Counter
+    c = Counter()
+    ex = {}
+    for v in agg['violations']:
+        d = v.get('detail')
+        head = d[:2] if isinstance(d, list) else d
+        key = (v.get('oracle'), v.get('mechanism'), json.dumps(head, default=str)[:100])
+        c[key] += 1
+        ex.setdefault(key, v)
+    for key, n in c.most_common(40):
+        print('HIST %5d %s' % (n, key))
+        print('       e.g. %s' % json.dumps(ex[key].get('detail'), default=str)[:700])
 
 
 def fold(results):
